@@ -32,6 +32,36 @@ def card(set_term):
   return card_fn(es)(set_term)
 
 
+_RS = z3.Function('rangeset', z3.IntSort(), z3.IntSort(),
+                  z3.SetSort(z3.IntSort()))
+
+
+def range_set(lo, hi):
+  """{i | lo <= i < hi} as a named term; its membership and cardinality
+  axioms are instantiated per occurrence (trusted arithmetic fact)."""
+  return _RS(lo, hi)
+
+
+def _is_rs(t):
+  return z3.is_app(t) and t.decl().name() == 'rangeset' and t.num_args() == 2
+
+
+def _collect_rs(t, acc, seen):
+  stack = [t]
+  while stack:
+    x = stack.pop()
+    if x.get_id() in seen:
+      continue
+    seen.add(x.get_id())
+    if z3.is_quantifier(x):
+      stack.append(x.body())
+      continue
+    if _is_rs(x) and not _has_bound(x):
+      acc[x.get_id()] = x
+    if z3.is_app(x):
+      stack.extend(x.children())
+
+
 def _is_card(t):
   return z3.is_app(t) and t.decl().name().startswith('card_') and t.num_args() == 1
 
@@ -72,10 +102,18 @@ def _has_bound(t):
 
 def instantiate(terms, max_sets=28):
   """Return a list of lemma instances for the card terms in `terms`."""
+  goal_ids = set()
   roots = []
   seen = set()
-  for t in terms:
+  for t in reversed(terms):        # the goal comes last: its sets first
+    n0 = len(roots)
     _collect(t, roots, seen)
+    if t is terms[-1]:
+      goal_ids = {z3.simplify(r).get_id() for r in roots[n0:]}
+  rs = {}
+  seen_rs = set()
+  for t in terms:
+    _collect_rs(t, rs, seen_rs)
   work = []
   ids = {}
 
@@ -89,6 +127,11 @@ def instantiate(terms, max_sets=28):
   for r in roots:
     add(r, 0)
   out = []
+  qi = z3.Int('i!rsax')
+  for x in rs.values():
+    lo, hi = x.arg(0), x.arg(1)
+    out.append(z3.ForAll([qi], z3.Select(x, qi) == z3.And(qi >= lo, qi < hi)))
+    out.append(card_fn(z3.IntSort())(x) == z3.If(hi > lo, hi - lo, 0))
   while work:
     s, depth = work.pop()
     es = s.sort().domain()
@@ -101,6 +144,24 @@ def instantiate(terms, max_sets=28):
     ch = s.children()
     if depth > 3:
       continue
+    if z3.is_map(s):
+      # simplified set operations: map(or)=union, map(and)=intersection,
+      # map(and, a, map(not, b)) = difference
+      fk = z3.get_map_func(s).kind()
+      if fk == z3.Z3_OP_OR:
+        k = z3.Z3_OP_SET_UNION
+      elif fk == z3.Z3_OP_AND:
+        neg = [c for c in ch if z3.is_map(c) and z3.get_map_func(c).kind()
+               == z3.Z3_OP_NOT]
+        pos = [c for c in ch if c not in neg]
+        if len(neg) == 0:
+          k = z3.Z3_OP_SET_INTERSECT
+        elif len(pos) >= 1:
+          a = pos[0] if len(pos) == 1 else z3.SetIntersect(*pos)
+          b = neg[0].arg(0) if len(neg) == 1 else z3.SetUnion(
+              *[n_.arg(0) for n_ in neg])
+          k = z3.Z3_OP_SET_DIFFERENCE
+          ch = [a, b]
     if k == z3.Z3_OP_SET_UNION and len(ch) >= 2:
       a = ch[0]
       b = ch[1] if len(ch) == 2 else z3.SetUnion(*ch[1:])
@@ -139,10 +200,17 @@ def instantiate(terms, max_sets=28):
       if z3.is_false(ch[0]):
         out.append(c(s) == 0)
   sets = [v[0] for v in ids.values()]
+  near = {k for k, v in ids.items() if v[1] <= 1}
   for i, x in enumerate(sets):
     for j, y in enumerate(sets):
       if i == j or x.sort() != y.sort():
         continue
+      # subset/equality lemmas only for pairs that touch a set of the goal
+      # (or a direct component of one): keeps the instance count linear
+      if goal_ids and not (x.get_id() in goal_ids or y.get_id() in goal_ids):
+        if not (x.get_id() in near and y.get_id() in near and
+                len(near) <= 10):
+          continue
       c = card_fn(x.sort().domain())
       out.append(z3.Implies(z3.IsSubset(x, y), c(x) <= c(y)))
       if i < j:
